@@ -640,6 +640,6 @@ impl Model {
 /// True when creating this unique index must fail because the data already has duplicates.
 pub fn create_index_hits_duplicates(view: &State, s: &Stmt) -> bool {
     let mut v = view.clone();
-    let mut n = 0;
+    let mut n = u64::MAX / 2;
     matches!(s, Stmt::CreateUniqueIndex { .. }) && matches!(exec_model(&mut v, &mut n, s).0, MOut::Err(ErrClass::Constraint, _))
 }
